@@ -96,10 +96,52 @@ var props = map[string]*propConfig{
 			{Name: "histories", Flags: map[string]string{"family": "histories"}, Quick: 2400, Thorough: 300000},
 		},
 		QuickBudget: 90 * time.Second, ThoroughBudget: 25 * time.Minute, Chunk: 50,
-		Rule: "one run = a history of 1..3 sessions (create / increment / close / reopen by new process objects = restart / extend), 1..3 concurrent writer processes per session, over a pool of names of 1..4096 bytes of arbitrary content (ASCII, any byte incl. NUL and newline, non-UTF-8, ditto marks), build metadata up to and beyond the 512-byte cap, optionally starting from a file written by the independent encoder (different placement policy); every intermediate snapshot is strictly decoded; the final content must equal the model and the library's Parse must agree with the independent decoder; distinct = distinct event-log hash; distinct_states counts distinct (previous limit mod 16384, name length) placement cases reached",
-		Real: []string{"internal/counter", "internal/mmap", "internal/telemetry", "Linux tmpfs / mmap"},
-		Stub: []string{"processes simulated in one address space", "Go scheduler", "wall clock"},
+		Rule:        "one run = a history of 1..3 sessions (create / increment / close / reopen by new process objects = restart / extend), 1..3 concurrent writer processes per session, over a pool of names of 1..4096 bytes of arbitrary content (ASCII, any byte incl. NUL and newline, non-UTF-8, ditto marks), build metadata up to and beyond the 512-byte cap, optionally starting from a file written by the independent encoder (different placement policy); every intermediate snapshot is strictly decoded; the final content must equal the model and the library's Parse must agree with the independent decoder; distinct = distinct event-log hash; distinct_states counts distinct (previous limit mod 16384, name length) placement cases reached",
+		Real:        []string{"internal/counter", "internal/mmap", "internal/telemetry", "Linux tmpfs / mmap"},
+		Stub:        []string{"processes simulated in one address space", "Go scheduler", "wall clock"},
 		Assumptions: []string{"refformat (independent codec written from the layout comment) is the oracle", "scheduling points as in C03", "sampling, not enumeration"},
-		Probes: []string{"foreign-file"},
+		Probes:      []string{"foreign-file"},
+	},
+	"C05": {
+		Harness: "h1", Level: "fault_enumeration",
+		Families: []family{
+			{Name: "call-failures", Flags: map[string]string{"family": "enum"}, Quick: 500, Thorough: 12000},
+			{Name: "corruption-at-rest", Flags: map[string]string{"family": "corruption"}, Quick: 3000, Thorough: 400000},
+		},
+		QuickBudget: 100 * time.Second, ThoroughBudget: 14 * time.Minute, Chunk: 10,
+		Rule: "call-failures: one seeded workload (1..2 processes x 1..2 threads, first open, increments incl. page growth, optional rotation, optional deletion of files in use, directory found as a regular file) is executed fault-free to count its N file-system/mmap calls, then re-executed once per (call index, errno in ENOENT/EACCES/EROFS/ENOSPC/EIO/EMFILE/EINTR, or short write) [quick: every call with a third of the errnos plus all short writes], once per persistent state (read-only, permission denied, mmap always failing) and for a sample of pairs (thorough: all pairs when N<=60); corruption-at-rest: a valid file built by the independent encoder is damaged (random bytes, truncation classes, header length, limit, bucket heads, name lengths, next links incl. self-loops, longer cycles and cross-chain links, for plain and ditto-compressed stack names) and then opened and incremented by the library; evaluations = executions; distinct = distinct event-log hash of the last execution of each workload; non-trivial = a fault fired or the file was damaged",
+		Real: []string{"internal/counter", "internal/mmap", "internal/telemetry", "Linux tmpfs / mmap"},
+		Stub: []string{"failing calls are injected by the file-system shim instead of being performed", "Go scheduler", "wall clock"},
+		Assumptions: []string{
+			"upload-side failures (upload.Run) are covered by the machine-world harness when it is claimed; this check covers opening, mapping, extending, rotating and incrementing",
+			"a recorded allocation limit far beyond the file size (which makes the library create a sparse file of that size) is not generated for the library consumer: its chain walks are bounded but too long to simulate",
+			"truncation of a file that is currently mapped is outside the property's quantifier and is not injected",
+		},
+		Probes: []string{"single-faults", "pair-faults", "persistent-faults"},
+	},
+	"C06": {
+		Harness: "h1", Level: "exploration",
+		Families: []family{
+			{Name: "live-snapshots", Flags: map[string]string{"family": "live"}, Quick: 1200, Thorough: 150000},
+			{Name: "damaged-at-rest", Flags: map[string]string{"family": "corruption"}, Quick: 6000, Thorough: 1500000},
+		},
+		QuickBudget: 90 * time.Second, ThoroughBudget: 12 * time.Minute, Chunk: 50,
+		Rule:        "live-snapshots: Parse is run on the bytes of the shared counter file after every scheduler step of a multi-process history with kills (every intermediate state: reserved-unlinked records, dead records, half-grown files) and compared with the independent decoder whenever that accepts the snapshot; damaged-at-rest: Parse on structurally damaged files (see C05) must return within a loop budget, and must agree with the independent decoder when the damage left the file well-formed. Claimed only for the clauses that meet the simulated schedule and disk; totality over all byte strings (random / coverage-guided) is not decided by this family",
+		Real:        []string{"internal/counter.Parse, DecodeStack (instrumented: loop budget)", "internal/counter writers producing the snapshots"},
+		Stub:        []string{"Go scheduler", "wall clock"},
+		Assumptions: []string{"refformat and refstack are the oracle", "two stored names that expand to the same text are not generated (the documentation does not say which wins)"},
+		Probes:      []string{"parse-compared", "damaged-but-wellformed"},
+	},
+	"C09": {
+		Harness: "h1", Level: "exploration",
+		Families: []family{
+			{Name: "counter-side", Flags: map[string]string{"family": "counter"}, Quick: 4000, Thorough: 500000},
+		},
+		QuickBudget: 90 * time.Second, ThoroughBudget: 20 * time.Minute, Chunk: 100,
+		Rule:        "one run = a rotating process on a simulated calendar (instants 1990..2060 biased to 23:59:59 / 00:00:00, month, year and leap boundaries, and to the last 90 s of a day), week-end setting valid 0..6 / missing / empty / garbage, 1..3 phases of concurrent increments during which the clock jumps to end-1ns, end, end+1ns, hours or weeks later; the real rotate re-arms itself through the simulated AfterFunc; checked: begin/end/name of every file created against refcal, old files frozen once a rotation completed, rotation liveness after the clock stops, conservation; distinct = distinct event-log hash",
+		Real:        []string{"internal/counter (rotate, rotate1, counterSpan, weekEnd)", "internal/telemetry"},
+		Stub:        []string{"clock and AfterFunc simulated", "Go scheduler"},
+		Assumptions: []string{"uploader side of C09 (expiry test and week naming) is checked in the machine-world harness when claimed", "UTC only, as the code"},
+		Probes:      []string{"rotation-completed", "jump-kind-0", "jump-kind-1", "jump-kind-2"},
 	},
 }
